@@ -38,6 +38,8 @@ func main() {
 			driveCancun(*seed, *n, *size, em)
 		case "precompile":
 			drivePrecompile(*seed, *n, *size, em)
+		case "interp":
+			driveInterp(*seed, *n, *size, em)
 		case "journal":
 			driveJournal(*seed, *n, *size, em, *size >= 100)
 		default:
